@@ -36,3 +36,23 @@ def states(L, abi="X64-ELF"):
 
 def _freeze(snap):
     return tuple(sorted((k, repr(v)) for k, v in snap.items()))
+
+
+def procs(L):
+    """-> {(sec,pos): ordinal of the enclosing procedure (count of .cfi_startproc seen so far in the section) | None}
+    for every code instruction; purely structural (startproc / endproc), so it is defined even when a value
+    directive does not evaluate."""
+    out = {}
+    for sec in sorted(L.bytes):
+        n = 0
+        inside = False
+        for p in sorted(set(k for k in L.insns if k[0] == sec) | set(k for k in L.cfi if k[0] == sec)):
+            for d in L.cfi.get(p, ()):
+                if d[0] == ".cfi_startproc":
+                    n += 1
+                    inside = True
+                elif d[0] == ".cfi_endproc":
+                    inside = False
+            if p in L.insns and L.insns[p]["bk"] == "c":
+                out[p] = (sec, n) if inside else None
+    return out
